@@ -258,5 +258,32 @@ Proof.
     apply Qabs_le_iff in S1. apply Qabs_le_iff in S2. apply Qabs_le_iff. lra.
 Qed.
 
+(** ... and has no digit below the place of the n-th figure of the reference number AS GIVEN (B):
+    a carry moves the printed place up, never down *)
+Lemma other_multiple oth y : y == inject_Z (r2 (oth / B)) * B / pow10 k * pow10 d ->
+  exists j : Z, inject_Z (f2 y) / pow10 d * pow10 k == inject_Z j * B.
+Proof.
+  intro E. set (m2 := r2 (oth / B)) in *. set (Roth := inject_Z m2 * B) in *.
+  pose proof (pow10_pos k) as Pk. pose proof (pow10_pos d) as Pd.
+  destruct carry_cases as [[Hc Hm]|[Hc Hm]].
+  - exists m2. apply fmt_exact; [exact Hf2|exact E|]. apply (multiple_int_nocarry m2 y Hc). exact E.
+  - (* carry: p = (oref - n + 1) + 1 *)
+    destruct (Z_lt_le_dec (k - p) 0) as [Hk|Hk].
+    + assert (Hd : d = 0%Z) by (unfold d; lia).
+      destruct (Z.eq_dec k (oref - n + 1)) as [Hk0|Hk0].
+      * exists (f2 y). rewrite Hd. unfold B. rewrite <- Hk0. change (pow10 0) with 1. field.
+      * exists m2. apply fmt_exact; [exact Hf2|exact E|].
+        assert (E2 : y == inject_Z m2 * pow10 (oref - n + 1 - k + d)).
+        { rewrite E. unfold Roth, B. rewrite (pow10_add (oref - n + 1 - k) d), (pow10_sub (oref - n + 1) k). field. apply pow10_nz. }
+        destruct (is_int_pow10 m2 (oref - n + 1 - k + d)) as [z Hz]; [unfold p in Hk; rewrite Hc in Hk; lia|].
+        exists z. rewrite E2. exact Hz.
+    + assert (Hd : d = (k - p)%Z) by (unfold d; lia).
+      exists (f2 y * 10)%Z. rewrite inject_Z_mult. change (inject_Z 10) with (10 # 1).
+      assert (Ek : pow10 k == pow10 d * (pow10 (oref - n + 1) * (10 # 1))).
+      { rewrite <- (pow10_1), <- !pow10_add. rewrite Hd. unfold p. rewrite Hc.
+        replace (k - (oref + 1 - n + 1) + (oref - n + 1 + 1))%Z with k by lia. reflexivity. }
+      unfold B. rewrite Ek. field. lra.
+Qed.
+
 End Scaled.
 End RefArith.
